@@ -816,6 +816,7 @@ package graphql
 //@ func Plan.collectInto
 //@   props C01 C13 C20
 //@   nosafety
+//@   loop 1 over selectionSet.Selections
 //@   assigns class:graphql.selectionPlan, class:graphql.fieldPlan, class:graphql.fragmentGate, class:graphql.fragmentTrace, class:E|graphql.collectStep, class:F|[]graphql.collectStep, class:M|string|*graphql.fragmentTrace, class:E|graphql.fragmentSpreadEdge, class:M|string|*graphql.fragmentGate, class:M|string|int, class:M|string|bool, class:E|*graphql.fieldPlan, class:E|*ast.Field, class:E|func, class:graphql.Plan.expanding, class:M|*ast.Field|bool, class:M|*graphql.fieldPlan|bool, class:M|*graphql.fragmentTrace|bool
 //@   requires p != nil
 //@   requires sp != nil
@@ -950,10 +951,11 @@ package graphql
 // invalid or uncoercible one is answered with an error; every definition gets exactly its own input ----
 
 //@ func getVariableValues
-//@   props C05
+//@   props C05 C01
 //@   nosafety
 //@   assigns nothing
 //@   loop 1 invariant fresh(values)
+//@   loop 1 over definitionASTs
 //@   at call getVariableValue: assert arg0 == schema && arg1 == defAST && arg2 == inputs[defAST.Variable.Name.Value]
 //@   loop 1 ensures calls("getVariableValue") == atloop(1, calls("getVariableValue")) + 1 ==> lastresult("getVariableValue", 1) == nil && has(values, defAST.Variable.Name.Value) && values[defAST.Variable.Name.Value] == lastresult("getVariableValue")
 //@   at return: assert calls("getVariableValue") > 0 && lastresult("getVariableValue", 1) != nil ==> result1 == lastresult("getVariableValue", 1)
@@ -967,7 +969,7 @@ package graphql
 //@   assigns nothing
 //@   ensures result != nil
 //@ func getVariableValue
-//@   props C05
+//@   props C05 C01
 //@   nosafety
 //@   assigns nothing
 //@   requires definitionAST != nil && definitionAST.Variable != nil && definitionAST.Variable.Name != nil
@@ -993,7 +995,7 @@ package graphql
 // default exactly when the coerced value is null, and is present exactly when the outcome is not null;
 // a scalar / enum is what its ParseValue yields (null when that is null).
 //@ func coerceValue
-//@   props C05
+//@   props C05 C01
 //@   nosafety
 //@   assigns nothing
 //@   ensures isNullish_0(value) ==> result == nil
@@ -1007,6 +1009,7 @@ package graphql
 //@   loop 1 ensures len(values) == atloop(1, len(values)) + 1 && values[len(values)-1] == lastresult("coerceValue")
 //@   at call coerceValue#4: assert arg0 == field.Type && arg1 == valueMap[name]
 //@   ensures !isNullish_0(value) && typeis(ttype, "*graphql.InputObject") ==> typeis(result, "map[string]interface{}")
+//@   loop 2 over lastresult("Fields")
 //@   loop 2 ensures calls("coerceValue") == atloop(2, calls("coerceValue")) + 1
 //@   loop 2 ensures !isNullish_0(lastresult("coerceValue")) ==> has(obj, name) && obj[name] == lastresult("coerceValue")
 //@   loop 2 ensures isNullish_0(lastresult("coerceValue")) && !isNullish_0(field.DefaultValue) ==> has(obj, name) && obj[name] == field.DefaultValue
@@ -1048,6 +1051,10 @@ package graphql
 //@   ensures[C05] !isNullish_0(value) && typeis(ttype, "*graphql.InputObject") && !typeis(value, "map[string]interface{}") ==> !result0
 //@   loop[C05] 3 invariant fresh(fieldNames)
 //@   loop[C05] 4 invariant fresh(valueMapFieldNames)
+//@   loop[C05] 3 over fields
+//@   loop[C05] 4 over valueMap
+//@   loop[C05] 5 over valueMapFieldNames
+//@   loop[C05] 6 over fieldNames
 //@   loop[C05] 5 invariant fresh(messagesReduce)
 //@   loop[C05] 5 invariant rangeindex + 1 <= len(valueMapFieldNames) && (forall j in 0..rangeindex+1: has(fields, valueMapFieldNames[j]) || len(messagesReduce) > 0)
 //@   loop[C05] 6 invariant forall j in 0..len(valueMapFieldNames): has(fields, valueMapFieldNames[j]) || len(messagesReduce) > 0
@@ -1094,6 +1101,9 @@ package graphql
 //@   loop[C05] 3 ensures has(fields, fieldAST.Name.Value) && fields[fieldAST.Name.Value] != nil ==> len(messagesReduce) == atloop(3, len(messagesReduce))
 //@   loop[C05] 3 ensures has(fieldASTMap, fieldAST.Name.Value) && fieldASTMap[fieldAST.Name.Value] == fieldAST
 //@   loop[C05] 4 invariant fresh(fieldNames)
+//@   loop[C05] 3 over fieldASTs
+//@   loop[C05] 4 over fields
+//@   loop[C05] 5 over fieldNames
 //@   at[C05] call isValidLiteralValue#4: assert arg0 == fields[fieldName].Type && (fieldASTMap[fieldName] != nil ==> arg1 == fieldASTMap[fieldName].Value) && (fieldASTMap[fieldName] == nil ==> isnil(arg1))
 //@   loop[C05] 5 invariant fresh(messagesReduce)
 //@   loop[C05] 6 invariant fresh(messagesReduce) && len(messagesReduce) == atloop(5, len(messagesReduce)) + rangeindex + 1 && rangeindex + 1 <= len(messages)
@@ -1242,7 +1252,7 @@ package graphql
 // literal against the item type, every input field from its own literal or else its default, present
 // exactly when the outcome is not null; scalars and enums through ParseLiteral.
 //@ func valueFromAST
-//@   props C05
+//@   props C05 C01
 //@   nosafety
 //@   assigns nothing
 //@   ensures valueAST == nil ==> result == nil
@@ -1254,6 +1264,9 @@ package graphql
 //@   loop 1 invariant fresh(values)
 //@   loop 2 invariant fresh(fieldASTs)
 //@   loop 3 invariant fresh(obj)
+//@   loop 1 over as(old(valueAST), "*ast.ListValue").Values
+//@   loop 2 over ov.Fields
+//@   loop 3 over lastresult("Fields")
 //@   loop 1 ensures len(values) == atloop(1, len(values)) + 1 && values[len(values)-1] == lastresult("valueFromAST")
 //@   at call valueFromAST#3: assert arg0 == old(valueAST) && arg1 == as(old(ttype), "*graphql.List").OfType && arg2 == variables
 //@   ensures valueAST != nil && !typeis(valueAST, "*ast.Variable") && typeis(ttype, "*graphql.List") ==> typeis(result, "[]interface{}")
@@ -1274,12 +1287,14 @@ package graphql
 // (none: null) against ITS type with the request's variables; its default applies exactly when that is
 // null; the argument is present exactly when the outcome is not null.
 //@ func getArgumentValues
-//@   props C05 C06 C20
+//@   props C05 C06 C20 C01
 //@   nosafety
 //@   assigns nothing
 //@   ensures result != nil && fresh(result)
 //@   loop 1 invariant fresh(argASTMap)
 //@   loop 2 invariant fresh(results) && fresh(argASTMap)
+//@   loop 1 over argASTs
+//@   loop 2 over argDefs
 //@   at call valueFromAST: assert arg1 == argDef.Type && arg2 == variableValues && (has(argASTMap, argDef.PrivateName) ==> arg0 == argASTMap[argDef.PrivateName].Value) && (!has(argASTMap, argDef.PrivateName) ==> arg0 == nil)
 //@   loop 1 ensures argAST.Name != nil ==> has(argASTMap, argAST.Name.Value) && argASTMap[argAST.Name.Value] == argAST
 //@   loop 2 ensures calls("valueFromAST") == atloop(2, calls("valueFromAST")) + 1
@@ -1489,6 +1504,7 @@ package graphql
 //@   loop 1 invariant forall i in 0..len(ordered): has(placed, ordered[i]) && placed[ordered[i]]
 //@   loop 1 invariant mapkept(placed) && mapkept(entered) && len(ordered) >= old(len(ordered))
 //@   loop 1 invariant forall i in 0..old(len(ordered)): ordered[i] == old(ordered[i])
+//@   loop 1 over steps
 //@   at call cond: assert arg0 == vars
 //@   at call replay: assert arg0 == step.spread.steps && has(entered, step.spread) && entered[step.spread] && !heapatloop(1, has(entered, step.spread) && entered[step.spread])
 //@   loop 1 ensures calls("cond") == atloop(1, calls("cond")) + 1 && !lastresult("cond") ==> len(ordered) == atloop(1, len(ordered)) && calls("replay") == atloop(1, calls("replay"))
@@ -1508,4 +1524,7 @@ package graphql
 //@   at return: assert result == ordered
 //@ func executePlannedSelection
 //@   at[C13,C01] call fieldsInOrder: assert arg0 == sp && sp.conditional && arg1 == eCtx.VariableValues
+//@   loop[C13,C01] 1 over fields
+//@   at[C13,C01] return: assert calls("fieldsInOrder") == 0 && sp != nil ==> fields == sp.fields
+//@   at[C13,C01] return: assert calls("fieldsInOrder") == 1 ==> fields == lastresult("fieldsInOrder")
 //@   at[C13] return: assert !old(sp != nil && sp.conditional) ==> calls("fieldsInOrder") == 0
